@@ -39,6 +39,17 @@ class TestCaseResultReporter(ResultReporter):
             return self.__report_unable_to_execute(exit_value,
                                                    result.error_info)
 
+    def report_suite_parse_error(self, ex: SuiteParseError) -> int:
+        """
+        Reports a syntax error of the suite that the test case belongs to
+        (the exit identifier is printed on the same file as for errors of the test case).
+        """
+        file_printers = self._reporting_environment.std_file_printers
+        from exactly_lib.test_suite import error_reporting
+        return error_reporting.report_suite_parse_error(ex,
+                                                        file_printers.get(self._exit_identifier_printer()),
+                                                        file_printers.err)
+
     def depends_on_result_in_sandbox(self) -> bool:
         raise NotImplementedError('abstract method')
 
